@@ -4,9 +4,9 @@ import (
 	"fmt"
 	"go/ast"
 	"go/types"
-	"regexp"
 	"os"
 	"path/filepath"
+	"regexp"
 	"sort"
 	"strings"
 
